@@ -149,6 +149,14 @@ fn check(flags: ParseFlags, allowed: ParseFlags) -> Result<(), PdfError> {
     Ok(())
 }
 
+/// An integer token beyond the 32-bit range is converted to a real (ISO 32000-1 Annex C).
+fn integer_or_real(lexeme: &Substr) -> Result<Primitive> {
+    match lexeme.to::<i32>() {
+        Ok(i) => Ok(Primitive::Integer(i)),
+        Err(_) => Ok(Primitive::Number(lexeme.to::<f32>()?)),
+    }
+}
+
 /// Recursive. Can parse stream but only if its dictionary does not contain indirect references.
 /// Use `parse_stream` if this is not sufficient.
 pub fn parse_with_lexer_ctx(lexer: &mut Lexer, r: &impl Resolve, ctx: Option<&Context>, flags: ParseFlags, max_depth: usize) -> Result<Primitive> {
@@ -210,13 +218,13 @@ fn _parse_with_lexer_ctx(lexer: &mut Lexer, r: &impl Resolve, ctx: Option<&Conte
                 check(flags, ParseFlags::INTEGER)?;
                 // We are probably in an array of numbers - it's not a reference anyway
                 lexer.set_pos(pos_bk); // (roll back the lexer first)
-                Primitive::Integer(t!(first_lexeme.to::<i32>()))
+                t!(integer_or_real(&first_lexeme))
             }
         } else {
             check(flags, ParseFlags::INTEGER)?;
             // It is but a number
             lexer.set_pos(pos_bk); // (roll back the lexer first)
-            Primitive::Integer(t!(first_lexeme.to::<i32>()))
+            t!(integer_or_real(&first_lexeme))
         }
     } else if let Some(s) = first_lexeme.real_number() {
         check(flags, ParseFlags::NUMBER)?;
